@@ -5,8 +5,8 @@ import ring_common as R
 
 PROP = 'C14'
 BUILDS, MINIMISE, SHARD_TIMEOUT, ASSUMPTIONS, RULE = R.BUILDS, R.MINIMISE, R.SHARD_TIMEOUT, R.ASSUMPTIONS, R.RULE
-TRANSLATORS = R.TRANSLATORS + ['spseq']     # Gen/SpSeq.lean (single-producer arithmetic), Props/C14Gen.lean
-EXTRA_THEOREM_MODULES = R.EXTRA_THEOREM_MODULES + ['DcVerif.Props.C14Gen', 'DcVerif.Lemmas.RingMultiSerial']
+TRANSLATORS = R.TRANSLATORS + ['spseq', 'mpseq']     # Gen/SpSeq.lean (single-producer arithmetic), Props/C14Gen.lean
+EXTRA_THEOREM_MODULES = R.EXTRA_THEOREM_MODULES + ['DcVerif.Props.C14Gen', 'DcVerif.Props.C14MGen', 'DcVerif.Lemmas.RingMultiSerial']
 classify, nontrivial = R.classify, R.nontrivial
 
 
